@@ -129,7 +129,9 @@ pub fn execute(plan: &Plan, entropy: u64) -> RunReport {
             uploads: 0,
             pad_owners: (0..2).map(|i| data::bls_key(s, 100 + i)).collect(),
             tx_owners: (0..2).map(|i| data::bls_key(s, 200 + i)).collect(),
-            reg_owners: (0..2).map(|i| data::bls_key(s, 300 + i)).collect(),
+            reg_owners: (0..2)
+                .map(|i| if i == 0 && plan.big_registers { data::big_register_owner() } else { data::bls_key(s, 300 + i) })
+                .collect(),
             stranger: data::bls_key(s, 401),
             foreign_keys: vec![],
             ranges: vec![None; plan.n_nodes as usize],
@@ -576,7 +578,11 @@ impl<'a> World<'a> {
                     meta[0] = who % 2;
                     let key = data::expected_register_key(&meta, &owner.public_key());
                     let base = data::base_register(&owner, meta, &[], false);
-                    let ops: Vec<RegisterOp> = items.iter().map(|i| data::register_op(&base, *i as u32, &owner)).collect();
+                    let mut ops: Vec<RegisterOp> = items.iter().map(|i| data::register_op(&base, *i as u32, &owner)).collect();
+                    if self.plan.big_registers && who % 2 == 0 {
+                        ops.extend(data::big_block(&base, 505 + 3 * (counter as u32 % 6)));
+                        self.rep.probe("big_register_uploaded");
+                    }
                     let reg = data::register_with_ops(&base, &ops);
                     let proof = make_proof(self, &key);
                     let mut all = match self.want.get(&key) {
